@@ -259,16 +259,16 @@ impl TrigramIndex {
         // sorted and de-duplicated: no gram occurs twice
         ensures ret@.no_duplicates(),
     {
-        let mut __sum0: usize = 0;
+        let mut __acc0: usize = 0;
         let __end0 = text.words.len();
         for __i0 in 0..__end0
-            invariant __end0 == text.words@.len(), text_ok(text), __sum0 == sum_len(text.words@, __i0 as int),
+            invariant __end0 == text.words@.len(), text_ok(text), __acc0 == sum_len(text.words@, __i0 as int),
         {
             let w = &text.words[__i0];
             proof { lemma_sum_len_mono(text.words@, __i0 as int + 1, text.words@.len() as int); }
-            __sum0 += w.len();
+            __acc0 += w.len();
         }
-        let cap = __sum0;
+        let cap = __acc0;
         let mut grams = Vec::with_capacity(cap);
         let __end1 = text.words.len();
         for __i1 in 0..__end1
